@@ -347,8 +347,8 @@ var baseTable = FunctionTable{
 	},
 	"power": Function{
 		impl.Power,
-		0,
-		0,
+		1,
+		1,
 		false,
 	},
 	"round": Function{
